@@ -292,7 +292,13 @@ fn check_geometry(v: &mut Verdict, fam: &Family, var: &Variant, out: &Outcome, c
     for k in 0..feet.len() - 1 {
         // (stations of the two extraction halves and of the edge methods are placed to the analysis tolerance: a
         // near-duplicate may sit a few tolerances behind its predecessor)
-        if feet[k + 1].1 <= feet[k].1 - (1e-6 * fam.len + 5.0 * core_tol) && back.is_none() {
+        // inside an edge cap (beyond the ends of the camber) the outline is a polygon inscribed in the cap circle: where
+        // a circle of the cap is "inscribed" moves by up to the sagitta of one cap segment with the side of the
+        // polygon it happens to touch, so two stations there can swap places by that much (found by the thorough
+        // tier: TraceToMaxCurvature on a 30-segment cap of radius 1.96, sagitta 1.1e-2, swap 4.7e-3)
+        let in_cap = |s: f64| s < 0.0 || s > fam.len;
+        let sag = if in_cap(feet[k].1) || in_cap(feet[k + 1].1) { fam.r0.max(fam.r1) * (1.0 - (std::f64::consts::PI / fam.n_cap as f64).cos()) } else { 0.0 };
+        if feet[k + 1].1 <= feet[k].1 - (1e-6 * fam.len + 5.0 * core_tol + sag) && back.is_none() {
             back = Some((k, feet[k].1, feet[k + 1].1));
         }
     }
